@@ -111,7 +111,12 @@ class Gen:
             if tab():
                 g0 = _lg(rng, 1e-6, 5e-3)
                 P["ig"] = table(rng, "ig", lambda io, vi: g0 * (1 + 3 * io / imax) * (1 + 0.01 * vi), av, imax)
-            if vin and rng.random() < 0.05:
+            if vin and rng.random() < 0.12:
+                # a regulator in drop-out: |vo| < |Vin| < |vo| + vdrop, its output follows the input at |Vin| - vdrop
+                u = rng.uniform(0.7, 0.9)
+                P["vo"] = math.copysign(max(_r(u * av, 4), 0.3), vo)
+                P["vdrop"] = _r((av - abs(P["vo"])) * rng.uniform(1.3, 2.5), 4)
+            elif vin and rng.random() < 0.05:
                 # a regulator without head-room at all: |Vin| <= vdrop < |vo|, its output is 0 V although it is on
                 P["vo"] = math.copysign(_r(1.6 * av, 4), vo)
                 P["vdrop"] = _r(1.2 * av, 4)
